@@ -30,6 +30,8 @@ def source_kind(n):
         return 'component(name)'
     if fn == 'parent' and n.get('mc') and n.get('cls', '').endswith('ParentedEntity'):
         return 'parent'
+    if fn == 'parent' and n.get('mc') and n.get('cls', '').endswith('AnalyserEquationAst'):
+        return 'ast.parent'
     return None
 
 
